@@ -85,6 +85,10 @@ func main() {
 			ids = []string{"C10"}
 			specs["C10"] = &PropSpec{ID: "C10", Rules: []func(*Ctx){ruleSentinelCollision, rulePull, ruleSemantic, ruleWorkspaceApplies, ruleFolderNotMembership, ruleRMW}}
 		}
+		if os.Getenv("HL_RULESET") == "round14g" {
+			ids = []string{"C10"}
+			specs["C10"] = &PropSpec{ID: "C10", Rules: []func(*Ctx){ruleLoaderCache}}
+		}
 		if os.Getenv("HL_RULESET") == "round14c" {
 			ids = []string{"C10"}
 			specs["C10"] = &PropSpec{ID: "C10", Rules: []func(*Ctx){ruleLoopCensus}}
